@@ -64,7 +64,20 @@ def oracle(c, impl):
     if impl.get("line") is None:
         return None
     seen = {}
+    # ids that some compaction batch of this history took as inputs (they leave the index as a whole, legitimately)
+    inputs = set()
+    for t in re.findall(r"\bc[sw]\d*:([0-9+]+):", impl.get("line") or ""):
+        inputs |= {int(x) for x in t.split("+") if x}
+    ops = [tuple(x)[0] for x in c["ops"]]
     for n, o in enumerate(impl["obs"]):
+        # (3) crash-free, fault-free histories: a complete segment directory that no compaction took as an input is
+        # named by segments.idx (a published segment does not drop out of the index while its files stay behind)
+        if "index" in o and "BLOCKSEG" not in ops and "X" not in ops and "P" not in ops:
+            listed = {e[0] for e in o["index"]}
+            for seg, files in o["hashes"].items():
+                if files and int(seg) not in listed and int(seg) not in inputs and any(f.endswith(".zones") for f in files):
+                    return (f"obs#{n}: segment {seg} is complete on disk and was not an input of any compaction batch, "
+                            f"but segments.idx does not name it (index {sorted(listed)}): a published segment dropped out of the index")
         for seg, files in o["hashes"].items():
             if seg in seen and seen[seg][1] != files:
                 return (f"obs#{n}: segment {seg} differs from what it held at obs#{seen[seg][0]} "
